@@ -18,6 +18,7 @@ unbind nor closes (`lat`: bounded by enquire_link_interval + 1 s, observed, not 
 -/
 import SmppVerif.Lemmas.Supervisor
 import SmppVerif.Lemmas.Limiter
+import SmppVerif.Gen.Site
 
 namespace SmppVerif.Props.C07
 open SmppVerif SmppVerif.Policy SmppVerif.Supervisor SmppVerif.Lemmas.Supervisor
@@ -67,6 +68,11 @@ example : run (some 40000) 1000 500 ⟨0, Backoff.init 1000 5⟩
 example : BoWF (Backoff.init 1000 5) ∧ ScriptWF 5000 1000 [.connFail 0, .session 0 20000 1000, .connFail 5000] :=
   ⟨init_wf _ _, by simp [ScriptWF]⟩
 
+/-- TIE TO THE SOURCE (regenerated on every run, Gen/Site.lean): one connect cycle of `start()` in source order: connect, reset the back-off, create the three tasks, end them all, close the connection, then the back-off delay - the cycle of Model/Supervisor.lean -/
+theorem start_cycle_step_order :
+    Gen.Site.startCycle = ["connect", "reset", "_receive_data", "_dequeue_messages", "_connection_keeper", "_end_task", "_end_task", "close", "next_delay", "_end_task"] := by
+  decide
+
 end SmppVerif.Props.C07
 
 #print axioms SmppVerif.Props.C07.runs_until_stopped
@@ -75,3 +81,4 @@ end SmppVerif.Props.C07
 #print axioms SmppVerif.Props.C07.backoff_sequence
 #print axioms SmppVerif.Props.C07.bind_resets_backoff
 #print axioms SmppVerif.Props.C07.stop_bounded
+#print axioms SmppVerif.Props.C07.start_cycle_step_order
